@@ -109,7 +109,7 @@ def unops(a):
     _res.append((a, 0, 'text', t(lambda: str(a)), t(lambda: repr(a))))
     _res.append((a, 0, 'parse', t(lambda: float(repr(a)) == a or a != a)))
 def cx(a, z):
-    _res.append((a, 0, 'complex', t(lambda: cenc(a + z)), t(lambda: cenc(z - a)), t(lambda: cenc(a * z)), t(lambda: cenc(z / a)), t(lambda: a == z), t(lambda: z != a), t(lambda: abs(z))))
+    _res.append((a, 0, 'complex', t(lambda: cenc(a + z)), t(lambda: cenc(z - a)), t(lambda: cenc(a * z)), t(lambda: cenc(z / a)), t(lambda: a == z), t(lambda: z != a), t(lambda: abs(z)), t(lambda: cenc(z + a)), t(lambda: cenc(a - z)), t(lambda: cenc(z * a)), t(lambda: cenc(a / z))))
 def cenc(z):
     return (z.real, z.imag)
 `
@@ -265,7 +265,7 @@ func TestC15(t *testing.T) {
 		c15Run(r, "int-int", fs, is, "for a in I:\n    for b in I:\n        _res.append((a, b, 'truediv', t(lambda: a / b)))\n", noop)
 		c15Run(r, "unary", fs, is, "for a in F:\n    unops(a)\nfor a in I:\n    unops(a)\n", noop)
 		c15Run(r, "pow", fs, is, "for a in F:\n    for n in [0, 1, 2]:\n        powops(a, n)\nfor a in [F[0], F[1], F[2], F[11], F[12], F[19], F[21], F[22], F[23], 2.0, 0.5, -4.0]:\n    for n in [-2, -1, 3]:\n        powops(a, n)\nfor a in I[:12]:\n    for n in [0.0, 1.0, 2.0, -1.0]:\n        powops(a, n)\n", noop)
-		c15Run(r, "complex", fs, is, "Z = [complex(1, 2), complex(0, 0), complex(-1.5, 0.5), complex(0, 1)]\nfor z in Z:\n    for a in F[:20]:\n        cx(a, z)\n    for a in I[:12]:\n        cx(a, z)\n", noop)
+		c15Run(r, "complex", fs, is, "Z = [complex(1, 2), complex(0, 0), complex(-1.5, 0.5), complex(0, 1)]\nfor z in Z:\n    for a in F[:20]:\n        cx(a, z)\n    for a in I:\n        cx(a, z)\n", noop)
 		c15Run(r, "parse", fs, is, "for s in ['inf', '-inf', 'nan', 'Infinity', '-0.0', '1e5', '1E5', '1.', '.5', '1e-400', '1e400', '  2.5  ', '0x1p3', '', 'abc', '1e', '+1.5']:\n    _res.append((s, 0, 'fromstr', t(lambda: float(s))))\n", noop)
 		r.SetExhaustive(true)
 	}
